@@ -548,6 +548,17 @@ Proof.
       apply In_window in Hx. lia.
 Qed.
 
+(* ... and that empty reply is WRONG once the chain is longer than (2^32-1)*size: the heights of that page's interval exist
+   but are not returned (and no larger index can be sent). Needs 2^32 momentums (> 1300 years at 10 s): recorded, not reachable *)
+Lemma by_page_top_index_incomplete_refuted :
+  exists h size, 0 < h < two63 - 1 /\ 0 < size <= RpcMaxPageSize /\ 0 < h - (two32 - 1) * size /\
+    acc_by_page h (two32 - 1) size = (0, [], h) /\ mom_by_page h (two32 - 1) size = (0, [], h).
+Proof.
+  exists (2 ^ 33), 1. assert (H1 : 0 < 2 ^ 33 < two63 - 1) by (unfold two63; lia).
+  assert (H2 : 0 < 1 <= RpcMaxPageSize) by (unfold RpcMaxPageSize; lia).
+  split; [exact H1|]. split; [exact H2|]. split; [unfold two32; lia|]. exact (by_page_top_index _ _ H1 H2).
+Qed.
+
 (* ------------------------------------------------------------ reward / history pagers *)
 Lemma epoch_loop_exact e n : 0 <= Z.of_nat n <= two32 -> e < two63 ->
   epoch_loop e n = if e <? 0 then [] else rev (zseq (Z.max 0 (e - Z.of_nat n + 1)) (Z.to_nat (e - Z.max 0 (e - Z.of_nat n + 1) + 1))).
